@@ -83,6 +83,19 @@ CHECKS = {
         note="Restart/installation timing conventions per DESIGN.md §2; execute/fix statuses are not judged.",
         design_ref="DESIGN.md §4 C13",
     ),
+    "C14": dict(
+        technique="explicit-state BFS over health/scan/fix/restore/power events on real hosts for all duration combinations; shadow timers and shadow (true, visible) records per item",
+        text="A real host with a service, an application, a folder with two files and all pre-installed software (plus a database server "
+             "with backup server for the fix-time restore), for every combination of fixing durations {1,2}, folder scan/restore "
+             "durations {0,1,3} and node scan durations {1,2}: BFS over compromise, corrupt (file/folder), fix, scan (software, file, "
+             "folder), node os-scan, repair, restore, delete, ticks and node power. A shadow record per item, never reading the "
+             "implementation's countdown fields: visible health changes only in a transition that completes a scan covering the item and "
+             "then equals the true health; true health changes only by an explicit event on the item or its timed completion; fix, folder "
+             "scan, folder restore and node scan are due exactly on their configured step; the real Service/Application/File/Folder "
+             "observation classes with requires_scan show the same.",
+        note="Duration 0 is accepted as instant or first step; a repeated os-scan request may join or restart the scan (the statement is silent); timers count steps with the node ON.",
+        design_ref="DESIGN.md §4 C14",
+    ),
     "C15": dict(
         technique="explicit-state BFS over real FileSystem objects (replay-from-history), invariants on every state",
         text="Every sequence of file-system requests / agent-action requests / API calls up to the stated depth over a "
